@@ -1,4 +1,5 @@
 import NomtModel.Api.PipelineExamples
+import NomtModel.Api.PipelineTrace
 import NomtModel.Store.CrashClassify
 /-!
 # C14 — the commit / rollback pipelines of `lib.rs` + `store/mod.rs` + `store/sync.rs` with a failure point at every step
@@ -229,6 +230,21 @@ theorem T14_reopen_after_call (E : Env) (hQ : E.Q = {}) (s : St Node VH) (c : Ca
     · have := e3 hf
       show durOf (reopen _) = _
       simp [reopen, durOf, DiskSt.procImage, this.2, this.1]
+
+/-- T14 **every I/O operation is issued where the label ↦ step mapping says**: in every trace of every call — any fault set, any
+state — each I/O step sits at the position `Io.pos` names for its label (`Io.pos` is what the driver uses to read a REAL label
+sequence: order check `conforms`, work `workOf`); the work read off any observed label sequence qualifies. -/
+theorem T14_trace_positions (E : Env) (ls : List Io) (hW : E.W = workOf ls) (p : PSt Node VH) (c : Call) :
+    positionsOk (runCall H E p c).trace = true :=
+  runCall_positionsOk H E (hW ▸ workOf_wf ls) p c
+
+/-- non-vacuity: the label sequences the model itself issues are accepted by the order check the driver applies to real traces,
+and re-reading the work off them gives the work back -/
+example : conforms (ioLabels (runCall Ex.HN {} Ex.p0 (.commit 1)).trace) = true ∧
+    conforms (ioLabels (runCall Ex.HN {} Ex.p0 (.rollback 1)).trace) = true ∧
+    (workOf (ioLabels (runCall Ex.HN {} Ex.p0 (.ocommit 10)).trace)).seg = ({} : IoWork).seg ∧
+    -- a real order the pipeline cannot issue: the meta page before the WAL fsync
+    conforms [.walSetLen, .walWrite, .metaWrite, .walFsync, .metaFsync] = false := by decide
 
 /-! ### the theorems are sharp: one line of the code changed back / changed, and they fail (kernel-checked) -/
 
